@@ -8,6 +8,7 @@ mod c05;
 mod c07;
 mod c09;
 mod c10;
+mod c11;
 mod c14;
 mod c16;
 mod c17;
@@ -82,6 +83,7 @@ fn main() {
         "c07" => c07::main(&args),
         "c09" => c09::main(&args),
         "c10" => c10::main(&args),
+        "c11" => c11::main(&args),
         "c14" => c14::main(&args),
         "c16" => c16::main(&args),
         "c17" => c17::main(&args),
